@@ -173,7 +173,7 @@ class Monitor(object):
         stats['uses'] += 1
         if rel is None or depend.Edge(node, dnode, rel) not in graph._all_edges:
           out.append(('edge-missing', '%s[%s] read %s through %s but the graph has no such edge'
-                      % (node, row, dnode, rel)))
+                      % (node, row, dnode, rel), (dnode, rows[0] if rows else None)))
           continue
         stats['rel:' + type(rel).__name__] += 1
         for q in rows:
@@ -183,14 +183,14 @@ class Monitor(object):
           aff = rel.get_affected_rows([q])
           if aff != depend.ALL_ROWS and row not in aff:
             out.append(('relation-does-not-cover', '%s[%s] read %s[%s] through %s; get_affected_rows([%s]) = %r'
-                        % (node, row, dnode, q, rel, q, sorted(aff)[:8])))
+                        % (node, row, dnode, q, rel, q, sorted(aff)[:8]), (dnode, q)))
             continue
           scratch = {}
           graph.invalidate_deps(dnode, [q], scratch, include_self=False)
           got = scratch.get(node)
           if got is None or (got != depend.ALL_ROWS and row not in got):
             out.append(('invalidate-misses-reader', 'invalidating %s[%s] does not mark its reader %s[%s] dirty'
-                        % (dnode, q, node, row)))
+                        % (dnode, q, node, row), (dnode, q)))
       for (lmap, rel, lkey) in f.lookups:
         stats['lookups'] += 1
         try:
@@ -221,7 +221,7 @@ class Monitor(object):
         cn = col.node
         if not any(dn == cn and (not rows or q in rows) for (dn, _r, rows) in f.uses):
           out.append(('read-without-dependency', '%s[%s] read the value of %s[%s] with no _use_node for it'
-                      % (node, row, cn, q)))
+                      % (node, row, cn, q), (cn, q)))
       if len(out) >= limit:
         break
     return out, stats
